@@ -56,6 +56,44 @@ class FakeJoystick:
         return self.level if n == self.button else False
 
 
+class LatchJoystick(FakeJoystick):
+    """a joystick with the whole button API of wpilib.Joystick: besides the level, the driver station's "pressed / released
+    since the last check" latches (shared by every reader of the button, cleared by the read)"""
+
+    def __init__(self, button):
+        self.button = button
+        self._level = False
+        self.reads = 0
+        self._pressed = False
+        self._released = False
+
+    @property
+    def level(self):
+        return self._level
+
+    @level.setter
+    def level(self, v):
+        v = bool(v)
+        if v and not self._level:
+            self._pressed = True
+        if self._level and not v:
+            self._released = True
+        self._level = v
+
+    def tap(self):
+        """the button goes down and up again between two samples"""
+        self.level = True
+        self.level = False
+
+    def getRawButtonPressed(self, n):
+        r, self._pressed = self._pressed and n == self.button, False
+        return r
+
+    def getRawButtonReleased(self, n):
+        r, self._released = self._released and n == self.button, False
+        return r
+
+
 class _Count(logging.Handler):
     def __init__(self):
         super().__init__(level=logging.DEBUG)
@@ -128,7 +166,8 @@ def _period_arg(p, as_int):
 def drive_toggle(env, case, probe=False):
     """-> (results, probe violations).  results[k] = what the k-th accessor returned."""
     p = case["period"]
-    js = FakeJoystick(1)
+    latch = len(case["h"]) % 2 == 0
+    js = LatchJoystick(1) if latch else FakeJoystick(1)
     if p is None:
         tg = env.toggle.Toggle(js, 1)
     else:
@@ -136,6 +175,8 @@ def drive_toggle(env, case, probe=False):
     res, probes = [], []
     for k, (t, lvl, acc) in enumerate(case["h"]):
         env.sec = t / TPS
+        if latch and not js.level and not lvl and (t + k) % 3 == 0:
+            js.tap()         # a tap that falls entirely between two samples: no edge among the samples the toggle takes
         js.level = bool(lvl)
         if probe:
             views = {}
@@ -187,7 +228,9 @@ def drive_filter(env, case, probe=False):
                                            bypass_level=case["bypass"])
     for t, lvl in case["h"]:
         env.sec = t / TPS
-        rec = logging.makeLogRecord({"levelno": lvl, "levelname": "L%d" % lvl, "msg": "x"})
+        # one filter object on a handler sees the records of several loggers: whose record it is makes no difference
+        rec = logging.makeLogRecord({"levelno": lvl, "levelname": "L%d" % lvl, "msg": "x",
+                                     "name": "robot.c%d" % ((t + lvl) % 3) if case["period"] % 2 else "robot"})
         if other is not None:
             _call(lambda: other.filter(rec))
         res.append(_b(_call(lambda: f.filter(rec))))
